@@ -857,6 +857,21 @@ def build(out_path, only=None, exclude=None):
             m = re.match(r'\s*//\[(\w+)\|([^\]]*)\]', ln)
             em.add(ln)
         em.add('} // mod %s' % stem)
+        # vacuity guards for the lemmas of this module (thorough tier): `requires P ensures false` must FAIL for every lemma precondition P
+        vac = []
+        for lm in re.finditer(r'^pub (?:broadcast )?proof fn (\w+)\s*(<[^>(]*>)?\s*\(([^)]*)\)\s*\n\s*requires\s+(.*?)\n\s*(?:ensures|decreases)\b', txt, re.M | re.S):
+            nm, gen, args, req = lm.group(1), lm.group(2) or '', lm.group(3), lm.group(4).strip().rstrip(',')
+            req = re.sub(r'#\[trigger\]\s*', '', re.sub(r'//[^\n]*', '', req)).strip().rstrip(',')
+            vac.append('pub proof fn vac_%s%s(%s) requires %s ensures false {}' % (nm, gen, args, req))
+        if vac:
+            em.add('pub mod %s_vac {' % stem)
+            em.add('use vstd::prelude::*;\nuse vstd::view::View as SpecView;\nuse std::collections::VecDeque;\n'
+                   'use crate::shim::*;\nuse crate::shim::View;\nuse crate::lem::*;\nuse crate::alg::*;\nuse crate::alg2::*;\nuse crate::views::*;\nuse crate::props::%s::*;\n'
+                   'broadcast use {crate::lem::group_lem, crate::shim::group_literals, crate::shim::group_shim};' % stem)
+            em.add('\n'.join(l for l in txt.split('\n') if l.startswith('use crate::props::')))
+            em.add('\n'.join(vac))
+            em.add('} // mod %s_vac' % stem)
+            report.setdefault('vacuity', {})[stem] = len(vac)
     em.add('} // mod props')
     em.add('pub mod canary {\nuse vstd::prelude::*;\nuse crate::shim::*;\nuse crate::shim::View;\nuse crate::lem::*;\n'
            'broadcast use {crate::lem::group_lem, crate::shim::group_literals, crate::shim::group_shim};\n'
